@@ -57,10 +57,10 @@ Cand(k) ==
     [] k = "len" -> IF Open THEN {Op("len", 0, 0)} ELSE {}
     [] k = "iter" -> IF Open THEN {Op("iter", 0, 0)} ELSE {}
     [] k = "getflight" -> {Op("getflight", i, 0) : i \in {j \in Ids : FileBacked}}
-    [] k = "addbad" -> {Op("addbad", r, 0) : r \in {q \in 1..6 : Writable
-                          /\ (q \in {2, 4} => added # <<>>) /\ (q = 3 => indexable # "undecided")}}
+    [] k = "addbad" -> {Op("addbad", r, 0) : r \in {q \in 1..7 : Writable
+                          /\ (q \in {2, 4} => added # <<>>) /\ (q = 7 => Cap <= 2) /\ (q = 3 => indexable # "undecided")}}
     [] k = "addro" -> IF mode = "read" THEN {Op("addro", 0, 0)} ELSE {}
-KindName(q) == CASE q = 1 -> "missing_required" [] q = 2 -> "fieldset_mismatch" [] q = 3 -> "id_inconsistent" [] q = 4 -> "fieldset_redefined" [] q = 5 -> "missing_required_other" [] q = 6 -> "missing_required_foreign"
+KindName(q) == CASE q = 1 -> "missing_required" [] q = 2 -> "fieldset_mismatch" [] q = 3 -> "id_inconsistent" [] q = 4 -> "fieldset_redefined" [] q = 5 -> "missing_required_other" [] q = 6 -> "missing_required_foreign" [] q = 7 -> "oversized"
 Do(d) ==
   CASE d.k = "add" -> Add(d.a, d.b)
     [] d.k = "get" -> Get(d.a)
@@ -93,7 +93,7 @@ Prologue(s) == CASE s = 4 -> <<Op("createmem", 0, 0), Op("add", 1, NoId), Op("ad
                  [] s = 6 -> <<Op("create", 0, 0)>>       \* a new file whose trajectories will carry a second field set
                  [] OTHER -> <<>>
 LookupCand == Cand("getflight") \cup {d \in Cand("add") : d.a = 1} \cup Cand("sync")
-MemCand == Cand("add") \cup Cand("save") \cup Cand("len") \cup Cand("iter") \cup Cand("get")
+MemCand == Cand("add") \cup Cand("save") \cup Cand("len") \cup Cand("iter") \cup Cand("get") \cup {d \in Cand("addbad") : d.a = 7}
 RejCand == Cand("addbad") \cup {d \in Cand("add") : d.a = 1} \cup Cand("len")
 FamNext == IF Len(hist) < Len(Prologue(start)) THEN Do(Prologue(start)[Len(hist) + 1])
            ELSE IF start = 5 THEN \E d \in LookupCand : Do(d)
